@@ -42,19 +42,19 @@ CHECKS = [
               "download path is covered by the bundle checks",
          technique="TLC-enumerated fault cases with specification-derived oracles, replayed on pkg/cafs"),
     dict(id="C04",
-         text='Meta.tla (repos, bundles as index files + descriptor, labels; API operations as actions, results as operators) is model-checked exhaustively for small constants; TLC-generated histories of uploads (trees, explicit key lists), selective downloads and diffs are replayed on pkg/core; after every step the real stores are projected and compared with the specification, and every visible bundle is downloaded and compared byte for byte',
+         text='Meta.tla (repos, bundles as index files + descriptor, labels; API operations as actions, results as operators) is model-checked exhaustively for small constants; TLC-generated histories of uploads (trees, explicit key lists), selective and single-file downloads by a client that knows only repository and id, and diffs are replayed on pkg/core; after every step the real stores are projected and compared with the specification, and every visible bundle is downloaded and compared byte for byte',
          design_ref="§3 C04",
-         note='Trusted: TLC, the projection (real store -> abstract state), the in-memory object store (checked against ObjectStore.tla), harness-chosen KSUIDs. Bounds: 3 prefix-related repos, 7 paths incl. generated decoys, 4 contents, <= 5-7 bundles, histories of 12-14 steps (random walks); 1000/1001-file bundles in a separate small run',
+         note='Trusted: TLC, the projection (real store -> abstract state), the in-memory object store (checked against ObjectStore.tla), harness-chosen KSUIDs. Bounds: 3 prefix-related repos, 13 paths incl. generated decoys, look-alikes of the reserved names and a dotted sibling, 4 contents, <= 5-7 bundles, histories of 12-14 steps (random walks); 1000/1001-file bundles in a separate small run',
          technique='TLA+ model checking (TLC) of Meta.tla + replay of TLC-generated API behaviours on pkg/core with state projection compare'),
     dict(id="C05",
-         text='TLC-generated histories of uploads over a shared path pool followed by diff and in-place update; diff compared with Meta!DiffOp, the updated directory compared with a fresh download of the target (files and metadata)',
+         text='TLC-generated histories of uploads over a shared path pool (and delete-files rewrites) followed by diff and in-place update; diff compared with Meta!DiffOp, the updated directory - a fresh download or a copy taken before the bundle was rewritten - compared with a fresh download of the target (files and metadata)',
          design_ref="§3 C05",
-         note='Trusted: TLC, the projection (real store -> abstract state), the in-memory object store (checked against ObjectStore.tla), harness-chosen KSUIDs. Bounds: 3 prefix-related repos, 7 paths incl. generated decoys, 4 contents, <= 5-7 bundles, histories of 12-14 steps (random walks); 1000/1001-file bundles in a separate small run',
+         note='Trusted: TLC, the projection (real store -> abstract state), the in-memory object store (checked against ObjectStore.tla), harness-chosen KSUIDs. Bounds: 3 prefix-related repos, 13 paths incl. generated decoys, look-alikes of the reserved names and a dotted sibling, 4 contents, <= 5-7 bundles, histories of 12-14 steps (random walks); 1000/1001-file bundles in a separate small run',
          technique='TLA+ model checking (TLC) of Meta.tla + replay of TLC-generated API behaviours on pkg/core with state projection compare'),
     dict(id="C06",
-         text='Meta.tla with interrupted uploads (VisibleComplete, CommittedImmutable checked exhaustively by TLC); TLC-generated histories in which uploads crash before/after each metadata write are replayed with the crash wrapper; after every step listing, latest, labels, entries and the full store projection are compared with the specification',
+         text='Meta.tla with interrupted uploads (VisibleComplete, CommittedImmutable checked exhaustively by TLC); TLC-generated histories in which uploads crash before/after each metadata write (and single transient write faults, a second writer under a committed id, two uploads racing for one id) are replayed with the crash wrapper; after every step full and minimal listing, latest, labels, entries and the full store projection are compared with the specification; diamond commits (crash at every write, failed index write with 1 and exactly 1000 entries, small listing pages) are validated call by call by DiamondTrace.tla',
          design_ref="§3 C06",
-         note='Trusted: TLC, the projection (real store -> abstract state), the in-memory object store (checked against ObjectStore.tla), harness-chosen KSUIDs. Bounds: 3 prefix-related repos, 7 paths incl. generated decoys, 4 contents, <= 5-7 bundles, histories of 12-14 steps (random walks); 1000/1001-file bundles in a separate small run. Crash = fail-stop of one client with atomic single-object writes',
+         note='Trusted: TLC, the projection (real store -> abstract state), the in-memory object store (checked against ObjectStore.tla), harness-chosen KSUIDs. Bounds: 3 prefix-related repos, 13 paths incl. generated decoys, look-alikes of the reserved names and a dotted sibling, 4 contents, <= 5-7 bundles, histories of 12-14 steps (random walks); 1000/1001-file bundles in a separate small run. Crash = fail-stop of one client with atomic single-object writes',
          technique='TLA+ model checking (TLC) of Meta.tla + replay of TLC-generated API behaviours on pkg/core with state projection compare'),
     dict(id="C07",
          text="Listing.tla (pages -> basename filter -> mergeKeys) equals the reference listing for every content and page size within bounds (TLC, exhaustive); the same contents are built with real split runs / crashed runs / cancels and listed with 6 page sizes x 2 concurrency levels; TLC-generated histories of repos, bundles (with leftovers) and labels are listed after every step with page sizes 1-3 in strict order through slice and Apply variants; 1030 bundles/labels and a diamond with 350 splits cross the default page size",
@@ -62,19 +62,19 @@ CHECKS = [
          note="Trusted: TLC, the projection, the in-memory object store (ListOp checked against ObjectStore.tla). Order: bundles by id, labels by name, repos name-or-key order; diamonds/splits completeness and exactness only",
          technique="TLA+ model checking (TLC) of the scan algorithm + replay of TLC-enumerated contents and TLC-generated histories on the listing API"),
     dict(id="C08",
-         text='TLC-generated label histories (set, overwrite, delete, bundle delete, repo delete/rename) over prefix-related repositories replayed on pkg/core; get/list of every label after every step compared with Meta!GetLabelOp/ListLabelsOp; full projection shows that a label set changes nothing else',
+         text='TLC-generated label histories (set, overwrite - also through a re-used or just resolved label object -, delete, bundle delete, repo delete/rename) over prefix-related repositories replayed on pkg/core; get/list of every label after every step compared with Meta!GetLabelOp/ListLabelsOp; full projection shows that a label set changes nothing else',
          design_ref="§3 C08",
-         note='Trusted: TLC, the projection (real store -> abstract state), the in-memory object store (checked against ObjectStore.tla), harness-chosen KSUIDs. Bounds: 3 prefix-related repos, 7 paths incl. generated decoys, 4 contents, <= 5-7 bundles, histories of 12-14 steps (random walks); 1000/1001-file bundles in a separate small run',
+         note='Trusted: TLC, the projection (real store -> abstract state), the in-memory object store (checked against ObjectStore.tla), harness-chosen KSUIDs. Bounds: 3 prefix-related repos, 13 paths incl. generated decoys, look-alikes of the reserved names and a dotted sibling, 4 contents, <= 5-7 bundles, histories of 12-14 steps (random walks); 1000/1001-file bundles in a separate small run',
          technique='TLA+ model checking (TLC) of Meta.tla + replay of TLC-generated API behaviours on pkg/core with state projection compare'),
     dict(id="C09",
-         text='TLC-generated histories with delete-repo, rename-repo and delete-files over prefix-related repositories sharing content; the complete projection of both metadata stores is compared with the specification after every step (frame conditions also model-checked: AtMostTwoReposTouched)',
+         text='TLC-generated histories with delete-repo, rename-repo and delete-files over prefix-related repositories sharing content; plus scripted delete-files scenarios over bundles of two index files; the complete projection of both metadata stores is compared with the specification after every step (frame conditions also model-checked: AtMostTwoReposTouched)',
          design_ref="§3 C09",
-         note='Trusted: TLC, the projection (real store -> abstract state), the in-memory object store (checked against ObjectStore.tla), harness-chosen KSUIDs. Bounds: 3 prefix-related repos, 7 paths incl. generated decoys, 4 contents, <= 5-7 bundles, histories of 12-14 steps (random walks); 1000/1001-file bundles in a separate small run. Concurrent creators: all interleavings of the store calls of 2-3 (4) concurrent CreateRepo under the gate scheduler, traces validated by CreateRepoTrace.tla (ExactlyOneWinner)',
+         note='Trusted: TLC, the projection (real store -> abstract state), the in-memory object store (checked against ObjectStore.tla), harness-chosen KSUIDs. Bounds: 3 prefix-related repos, 13 paths incl. generated decoys, look-alikes of the reserved names and a dotted sibling, 4 contents, <= 5-7 bundles, histories of 12-14 steps (random walks); 1000/1001-file bundles in a separate small run. Concurrent creators: all interleavings of the store calls of 2-3 (4) concurrent CreateRepo under the gate scheduler, traces validated by CreateRepoTrace.tla (ExactlyOneWinner)',
          technique='TLA+ model checking (TLC) of Meta.tla + replay of TLC-generated API behaviours on pkg/core with state projection compare'),
     dict(id="C10",
-         text='Meta!KeepSet (model-checked: SquashKeepsLatest) against RepoSquash on TLC-generated histories with leftovers of uploads interrupted at every metadata write, semver / non-semver labels, retain-N 1..3 and every retain-tags mode; kept bundles downloaded',
+         text='Meta!KeepSet (model-checked: SquashKeepsLatest) against RepoSquash on TLC-generated histories with leftovers of uploads interrupted at every metadata write, semver / non-semver labels, retain-N 1..3 and every combination of the retain-tags options; kept bundles downloaded',
          design_ref="§3 C10",
-         note='Trusted: TLC, the projection (real store -> abstract state), the in-memory object store (checked against ObjectStore.tla), harness-chosen KSUIDs. Bounds: 3 prefix-related repos, 7 paths incl. generated decoys, 4 contents, <= 5-7 bundles, histories of 12-14 steps (random walks); 1000/1001-file bundles in a separate small run',
+         note='Trusted: TLC, the projection (real store -> abstract state), the in-memory object store (checked against ObjectStore.tla), harness-chosen KSUIDs. Bounds: 3 prefix-related repos, 13 paths incl. generated decoys, look-alikes of the reserved names and a dotted sibling, 4 contents, <= 5-7 bundles, histories of 12-14 steps (random walks); 1000/1001-file bundles in a separate small run',
          technique='TLA+ model checking (TLC) of Meta.tla + replay of TLC-generated API behaviours on pkg/core with state projection compare'),
     dict(id="C11",
          text="Merge.tla: declarative MergeOp (latest write wins, losing versions with different content kept under the uploading split, forbid fails iff two splits differ, ignore adds nothing) and the collect-then-resolve algorithm, checked by TLC for every enumerated input and every arrival order; each case is built with real CreateSplit/Split.Upload, re-timed, committed with the arrival order of the split file lists forced, and the committed entries compared with MergeOp",
